@@ -369,9 +369,4 @@ def run(chk):
     from . import c03
     from ..rt import EvalExpr
     chk.rule('C03.T', 'shared with C03: + with a string operand stringifies the other side with value_string')
-    ee = EvalExpr(chk.repo, 'C03.T')
-    bs = ee.binary()
-    before = len(chk.instances)
-    chk.guard('C03.T', c03.check_table, chk, ee, bs)
-    # keep only the '+' rows as instances of this property
-    chk.instances[before:] = [i for i in chk.instances[before:] if "'+'" in i['instance'] or i['verdict'] != 'OK']
+    c03.check_operator_table(chk, keep=lambda text: "'+'" in text)
